@@ -1003,8 +1003,9 @@ func stringToReflectValue(value string, kind reflect.Kind) (reflect.Value, error
 		return reflect.ValueOf(value), nil
 	}
 
-	// FIXME This should end up as a TypeError?
-	panic(fmt.Errorf("invalid conversion of %q to reflect.Kind: %v", value, kind))
+	// No property name spells a value of this kind (struct, array, interface, pointer, ...). A script
+	// reaches this with any access to a bridged map of such a key type: it gets a TypeError.
+	panic(newError(nil, "TypeError", 0, "invalid conversion of %q to reflect.Kind: %v", value, kind))
 }
 
 // MarshalJSON implements json.Marshaller.
